@@ -1,3 +1,3 @@
 SPECIFICATION Spec
-INVARIANTS UnsignedOK Lenient SignedOK EmitOnce
+INVARIANTS UnsignedOK Lenient SignedOK InContext EmitOnce
 CHECK_DEADLOCK FALSE
